@@ -7,17 +7,17 @@ From MiV Require Import Gen.Consts Gen.Bins Model.Arith Model.Page Model.Span Mo
 Import ListNotations.
 Local Open Scope N_scope.
 
-(* (1) PROGRESS.  Model/Compose.v turns the assertions of the C code (block_size <= page_size,
+(* (1) PROGRESS OF THE HUGE PATH.  Model/Compose.v turns the assertions of the C code (block_size <= page_size,
    page_size / block_size < 2^16 in mi_page_init; block_size >= size in _mi_malloc_generic; reserved = 1 for a
-   huge page; slice_count fits 32 bits) into dynamic checks: the operation returns None when one fails.  All
+   huge page; slice_count fits 32 bits) into dynamic checks: the operation returns None when one fails, and the
    theorems of Properties/C01compose.v are of the form "if the operation returns Some ...".  That the checks
-   never fail for a request within bounds -- i.e. that a malloc with a fresh segment at an address the OS
-   contract allows always succeeds -- is not proved (it is observed: the replay of Tie T rebuilds the real
-   states, and the Examples run the model): *)
-Definition compose_malloc_progress_stmt : Prop :=
-  forall m size base, mem_inv m -> 0 < size -> size <= MI_LARGE_OBJ_SIZE_MAX ->
-    base_ok m base MI_SLICES_PER_SEGMENT = true ->
-    exists m' p, mmalloc m size (ChFreshSeg base) = Some (m', p).
+   never fail is PROVED for requests up to MI_LARGE_OBJ_SIZE_MAX served from a fresh segment
+   (Proofs/ComposeProgress.v malloc_fresh_seg_progress = C01_compose_malloc_progress).  For a huge block
+   (its own segment) it is not proved, only observed (Examples; the replay rebuilds real huge segments): *)
+Definition compose_malloc_huge_progress_stmt : Prop :=
+  forall m size base, mem_inv m -> MI_LARGE_OBJ_SIZE_MAX < size -> size <= MI_MAX_ALLOC_SIZE ->
+    base_ok m base (fst (fst (fst (segment_request (block_size_of size) 0)))) = true ->
+    exists m' p, mmalloc m size (ChHuge base 0) = Some (m', p).
 
 (* (2) SOUNDNESS OF THE RESOLUTION FOR ARBITRARY ADDRESSES.  compose_free_resolves shows that every address
    inside a live block resolves to that block (completeness, which is what a valid program needs).  The
